@@ -1192,6 +1192,14 @@ func runUnguardedRules(p *Program, id string) ([]*Gen, []string) {
 
 // pathMatches compares an access path with a pattern in which "*" matches any run of characters.
 func pathMatches(got, pat string) bool {
+	if strings.Contains(pat, " OR ") {
+		for _, alt := range strings.Split(pat, " OR ") {
+			if pathMatches(got, strings.TrimSpace(alt)) {
+				return true
+			}
+		}
+		return false
+	}
 	parts := strings.Split(pat, "*")
 	pos := 0
 	for i, part := range parts {
